@@ -333,7 +333,16 @@ def validate_ir(ir, input_zero_sized=(), after_fault=False, original_blocks=None
                 # block it lies in was followed by data or by nothing when the decision was made
                 nxt = None
             reasons = []
-            if any(True for _ in b.references) and len(blocks) == 1:
+            # (alignment padding that the closing join put in front of the emptied block is not a place labels
+            # could have gone to: new, unreferenced, no edges)
+            def padding_like(x):
+                if original_blocks is None or x in original_blocks or any(True for _ in x.references):
+                    return False
+                if isinstance(x, g.CodeBlock) and (any(True for _ in x.incoming_edges) or any(True for _ in x.outgoing_edges)):
+                    return False
+                return True
+
+            if any(True for _ in b.references) and len([x for x in blocks if x is b or not padding_like(x)]) == 1:
                 reasons.append("labels, only block of the section")
             if isinstance(b, g.CodeBlock):
                 # (Deletion.md: "the block has incoming control flow" - a
